@@ -129,6 +129,9 @@ type Config struct {
 	GenesisTimeFix uint32 // reuse the genesis timestamp of an earlier instance (restart)
 	FS             vfs.FS // run pebble on this file system (crash simulation); nil = fresh in-memory FS
 	RecoverApp     bool   // rebuild the mock application's state-root history from the chain found in the DB
+	StartP2P       bool     // start the real libp2p connection (needed by handlers that ban peers, and by sync)
+	P2PAddrs       []string // listen addresses when StartP2P (empty: no listener)
+	P2PSeed        []byte
 }
 
 func DefaultConfig(n int) Config {
@@ -412,6 +415,7 @@ type Node struct {
 	App     *MockABI
 	Genesis *blockchain.Block
 	Slot    *validator.BlockSlot
+	Conn    *p2p.Connection
 	evCh    map[string]chan interface{}
 	Logger  log.Logger
 }
@@ -489,12 +493,22 @@ func New(cfg Config) (*Node, error) {
 			n.App.Roots = append(n.App.Roots, hd.StateRoot)
 		}
 	}
-	conn := p2p.NewConnection(silent, &p2p.Config{ChainID: cfg.ChainID})
+	conn := p2p.NewConnection(silent, &p2p.Config{ChainID: cfg.ChainID, Addresses: cfg.P2PAddrs, ConnectionSecurity: "none", MinNumOfConnections: 1})
+	n.Conn = conn
 	n.Exec = consensus.NewExecuter(&consensus.ExecuterConfig{CTX: context.Background(), ABI: n.App, Chain: n.Chain, Conn: conn, BlockTime: cfg.BlockTime, BatchSize: cfg.BatchSize})
 	if err := n.Exec.Init(&consensus.ExecuterInitParam{CTX: context.Background(), Logger: silent, Database: n.DB, GenesisBlock: n.Genesis}); err != nil {
 		return nil, err
 	}
 	n.Slot = validator.NewBlockSlot(n.Genesis.Header.Timestamp, cfg.BlockTime)
+	if cfg.StartP2P {
+		seed := cfg.P2PSeed
+		if len(seed) == 0 {
+			seed = []byte("verif-node")
+		}
+		if err := conn.Start(seed); err != nil {
+			return nil, err
+		}
+	}
 	for _, t := range []string{consensus.EventBlockNew, consensus.EventBlockDelete, consensus.EventBlockFinalize, consensus.EventValidatorsChange, consensus.EventNetworkBlockNew} {
 		ch := make(chan interface{}, 4096)
 		n.evCh[t] = ch
@@ -590,6 +604,9 @@ func DiffDumps(a, b map[string]string) []string {
 
 // Close releases the database (memtables) of a node that is no longer needed.
 func (n *Node) Close() {
+	if n != nil && n.Cfg.StartP2P && n.Conn != nil {
+		_ = n.Conn.Stop()
+	}
 	if n != nil && n.DB != nil {
 		_ = n.DB.Close()
 	}
